@@ -71,8 +71,8 @@ class Gen:
     def fanout(self, width=None):
         """one prefix followed by many distinct next bytes"""
         self.note("fanout")
-        width = width or self.rng.choice([2, 3, 4, 5, 8, 9, 20, 127, 128, 200])
-        pre = self.word(b"xy", 0, 2)
+        width = width or self.rng.choice([2, 3, 4, 5, 8, 9, 20, 127, 128, 200, 253, 254, 255, 256])
+        pre = self.word(b"xy", 0, 3)
         nexts = self.rng.sample(range(256), width)
         if self.rng.random() < 0.5:
             for b in (0, 255):
